@@ -18,6 +18,18 @@ package api
 // and compares what the client sees (status, handler headers, handler chunks) with the set of
 // responses the specification allows.  Every expected value comes from the case file.
 //
+// Header steps carry values (Set / Add / a raw non-canonical map entry): the client-visible header MULTIMAP of
+// a handler response (every value of every handler header, in order, names compared case-insensitively) is
+// compared with the values the specification gives (field "hv").
+//
+// Route time-out VALUES (cfg.routeUs / cfg.cfgMs / cfg.effUs of a scenario): the scenario is served on a route
+// registered with api.WithTimeout(routeUs microseconds) (none for 0) of the engine whose Config.Timeout is
+// cfgMs.  A handler that misses such a deadline waits for ctx.Done like every other one - or, failing that,
+// for a release the driver gives 3 s + 2 x the time-out after the request was sent (a handler that outlives
+// its route time-out by three orders of magnitude and then ends): its late output must not reach the client.
+// A disagreement seen after such a release must reproduce 3 times.  The deadline the handler finds in its
+// context must not lie before (request sent + route time-out).
+//
 // Handlers are gated, never raced against a timer: the "pre" part of a script runs at once;
 // if the script has a "post" part the handler then blocks on <-r.Context().Done() and runs
 // the rest.  "Finishes in time" scenarios run under a time-out that is never reached (10 min;
@@ -33,6 +45,7 @@ import (
 	"net"
 	"net/http"
 	"net/http/httptest"
+	"net/textproto"
 	"os"
 	"sort"
 	"strconv"
@@ -83,6 +96,9 @@ type c02Scenario struct {
 	ran       atomic.Int32
 	tookNs    atomic.Int64
 	ctxDoneNs atomic.Int64 // when the gated handler saw ctx.Done, since its start
+	release   chan struct{} // route time-out values: closed by the driver long after the route time-out
+	overran   atomic.Bool   // the handler was ended by `release`, not by ctx.Done
+	dl        atomic.Value  // time.Time: the deadline the handler found in its context (if any)
 }
 
 type c02Env struct {
@@ -102,6 +118,7 @@ type c02Drv struct {
 	client *http.Client
 	rep    *kit.Reporter
 	mbs    []int64
+	rts    []int // route time-out values (microseconds) named by the scenarios
 	main   *c02Env
 	nt     *c02Env      // engine built with Config.Timeout = 0: the chain without time-out guard
 	alone  http.Handler // handler.RecoverHandler around the scripted handler, nothing else
@@ -116,15 +133,17 @@ type c02Obs struct {
 	status  int
 	hdrs    []string
 	body    []string
-	foreign bool // the body holds bytes that are not handler chunks
+	hv      map[string][]string // handler header name -> all its values, in order
+	foreign bool                // the body holds bytes that are not handler chunks
 	elapsed time.Duration
+	t0      time.Time // taken before the request was built
 }
 
 func (o c02Obs) String() string {
 	if o.err != "" {
 		return fmt.Sprintf("{no response: %s after %v}", o.err, o.elapsed.Round(time.Millisecond))
 	}
-	return fmt.Sprintf("{status %d handler-headers %v handler-chunks %v other-bytes %v}", o.status, o.hdrs, o.body, o.foreign)
+	return fmt.Sprintf("{status %d handler-headers %v values %v handler-chunks %v other-bytes %v}", o.status, o.hdrs, o.hv, o.body, o.foreign)
 }
 
 func c02Chunk(k string) string {
@@ -163,11 +182,21 @@ func c02Tokens(body string, ids []string) (toks []string, foreign bool) {
 var c02ChunkIDs = []string{"a", "b", "c", "big"}
 
 func c02Project(status int, h http.Header, body []byte) c02Obs {
-	o := c02Obs{status: status}
+	o := c02Obs{status: status, hv: map[string][]string{}}
+	// header names are case-insensitive: a recorder keeps the spelling the chain used, a client canonicalises
+	var keys []string
 	for k := range h {
-		if strings.HasPrefix(k, "X-Verif-H-") {
-			o.hdrs = append(o.hdrs, strings.ToLower(strings.TrimPrefix(k, "X-Verif-H-")))
+		keys = append(keys, k)
+	}
+	sort.Strings(keys)
+	for _, k := range keys {
+		if ck := textproto.CanonicalMIMEHeaderKey(k); strings.HasPrefix(ck, "X-Verif-H-") {
+			name := strings.ToLower(strings.TrimPrefix(ck, "X-Verif-H-"))
+			o.hv[name] = append(o.hv[name], h[k]...)
 		}
+	}
+	for name := range o.hv {
+		o.hdrs = append(o.hdrs, name)
 	}
 	sort.Strings(o.hdrs)
 	o.body, o.foreign = c02Tokens(string(body), c02ChunkIDs)
@@ -192,6 +221,9 @@ func (d *c02Drv) handle(w http.ResponseWriter, r *http.Request) {
 		}
 	}
 	start := time.Now()
+	if dl, ok := r.Context().Deadline(); ok {
+		sc.dl.Store(dl)
+	}
 	close(sc.entered)
 	defer func() {
 		sc.tookNs.Store(int64(time.Since(start)))
@@ -225,6 +257,12 @@ func (d *c02Drv) handle(w http.ResponseWriter, r *http.Request) {
 		switch st.op {
 		case "hdr":
 			w.Header().Set("X-Verif-H-"+st.h, "v")
+		case "hset":
+			w.Header().Set("X-Verif-H-"+st.h, st.k)
+		case "hadd":
+			w.Header().Add("X-Verif-H-"+st.h, st.k)
+		case "hraw":
+			w.Header()["x-verif-h-"+st.h] = []string{st.k, "z"}
 		case "status":
 			w.WriteHeader(st.c)
 		case "write":
@@ -236,7 +274,19 @@ func (d *c02Drv) handle(w http.ResponseWriter, r *http.Request) {
 	}
 	if sc.npre <= len(sc.steps) {
 		close(sc.preDone)
-		<-r.Context().Done()
+		if sc.release == nil {
+			<-r.Context().Done()
+		} else {
+			select {
+			case <-r.Context().Done():
+			default:
+				select {
+				case <-r.Context().Done():
+				case <-sc.release:
+					sc.overran.Store(true)
+				}
+			}
+		}
 		sc.ctxDoneNs.Store(int64(time.Since(start)))
 		for i := sc.npre; i <= len(sc.steps); i++ {
 			run(i)
@@ -289,6 +339,13 @@ func c02FreePort() (int, error) {
 	return p, nil
 }
 
+func c02RtClass(us int) string {
+	if us <= 0 {
+		return "cfg"
+	}
+	return "rt" + strconv.Itoa(us) + "us"
+}
+
 func c02Path(class string, mb int64) string {
 	return "/" + class + "/" + strconv.FormatInt(mb, 10) + "/s"
 }
@@ -297,6 +354,9 @@ func c02Path(class string, mb int64) string {
 // route options; class "cfg" and the first MaxBytes value use the Config-level settings.
 func (d *c02Drv) addRoutes(s *Server, mbs []int64) {
 	classes := map[string]time.Duration{"long": c02Long, "short": c02Short, "tiny": c02Tiny, "cfg": 0}
+	for _, us := range d.rts { // route time-out values named by the scenarios (microseconds)
+		classes[c02RtClass(us)] = time.Duration(us) * time.Microsecond
+	}
 	for class, to := range classes {
 		for i, mb := range mbs {
 			var opts []RouteOption
@@ -438,7 +498,7 @@ func (sc *c02Scenario) settle(wantRuns bool) string {
 func (d *c02Drv) do(transport string, env *c02Env, path string, sc *c02Scenario, cl int, cancelAfterPre, wantRuns bool) (o c02Obs) {
 	body := bytes.Repeat([]byte("b"), cl)
 	t0 := time.Now()
-	defer func() { o.elapsed = time.Since(t0) }()
+	defer func() { o.elapsed, o.t0 = time.Since(t0), t0 }()
 	switch transport {
 	case "rec", "recover":
 		var chain http.Handler = env.bound.router
@@ -545,17 +605,45 @@ func c02Eq(a, b []string) bool {
 // c02Match decides whether the observation is one of the allowed responses; why names the first
 // thing that is off (used in the stable key).
 func c02Match(exp kit.M, o c02Obs) (ok bool, why string) {
+	ok, why, _ = c02MatchEl(exp, o)
+	return
+}
+
+// c02HdrValues compares the values of the handler headers of a HANDLER response (el.srv = false) with the
+// specification's: per name the list as it stood at the first commit or at the end of the handler.
+func c02HdrValues(m kit.M, el map[string]any, o c02Obs) (ok bool, multi bool, msg string) {
+	hv, has := m["hv"].(map[string]any)
+	if !has || el == nil || kit.Bool(el["srv"]) {
+		return true, false, ""
+	}
+	lo, _ := hv["lo"].(map[string]any)
+	hi, _ := hv["hi"].(map[string]any)
+	for _, name := range o.hdrs {
+		got := o.hv[name]
+		wantHi, wantLo := c02SeqList(hi[name]), c02SeqList(lo[name])
+		if !(c02Eq(got, wantHi) || (len(wantLo) > 0 && c02Eq(got, wantLo))) {
+			return false, false, fmt.Sprintf("header %q reached the client with values %q, the handler gave it %q (at its first commit: %q)", name, got, wantHi, wantLo)
+		}
+		if len(got) > 1 {
+			multi = true
+		}
+	}
+	return true, multi, ""
+}
+
+// c02MatchEl: as c02Match; el is the member of the allowed set that was matched (nil for "any").
+func c02MatchEl(exp kit.M, o c02Obs) (ok bool, why string, el map[string]any) {
 	if strings.HasPrefix(o.err, "HUNG") {
-		return false, "hung"
+		return false, "hung", nil
 	}
 	if strings.HasPrefix(o.err, "ESCAPED") {
-		return false, "panic-escaped"
+		return false, "panic-escaped", nil
 	}
 	if o.err != "" {
-		return false, "no-response"
+		return false, "no-response", nil
 	}
 	if kit.Bool(exp["any"]) {
-		return true, ""
+		return true, "", nil
 	}
 	statusOK, wantsBody, wantsHdrs := false, false, false
 	for _, e := range kit.List(exp["set"]) {
@@ -571,18 +659,18 @@ func c02Match(exp kit.M, o c02Obs) (ok bool, why string) {
 		}
 		statusOK = true
 		if c02Eq(c02StrList(m["hdrs"]), o.hdrs) && c02Eq(c02SeqList(m["body"]), o.body) && (!o.foreign || kit.Bool(m["srv"])) {
-			return true, ""
+			return true, "", m
 		}
 	}
 	switch {
 	case len(o.body) > 0 && !wantsBody:
-		return false, "handler-bytes-leaked"
+		return false, "handler-bytes-leaked", nil
 	case len(o.hdrs) > 0 && !wantsHdrs:
-		return false, "handler-headers-leaked"
+		return false, "handler-headers-leaked", nil
 	case !statusOK:
-		return false, "status"
+		return false, "status", nil
 	default:
-		return false, "headers-or-body"
+		return false, "headers-or-body", nil
 	}
 }
 
@@ -631,6 +719,23 @@ func c02HasTimeout(m kit.M) bool {
 	return !ok || kit.Bool(t)
 }
 
+// c02Rt: the route time-out dimension of a scenario (cfg.routeUs, cfg.cfgMs, cfg.effUs), if it has one.
+func c02Rt(m kit.M) (has bool, routeUs, cfgMs, effUs int) {
+	cfg, _ := m["cfg"].(map[string]any)
+	if _, has = cfg["routeUs"]; !has {
+		return
+	}
+	return true, kit.Num(cfg["routeUs"]), kit.Num(cfg["cfgMs"]), kit.Num(cfg["effUs"])
+}
+
+// c02OnNT: the scenario is served by the engine built with Config.Timeout = 0.
+func c02OnNT(m kit.M) bool {
+	if has, _, cfgMs, _ := c02Rt(m); has {
+		return cfgMs == 0
+	}
+	return !c02HasTimeout(m)
+}
+
 func (d *c02Drv) transportsOf(m kit.M) []string {
 	base := []string{"rec", "http", "api"}
 	if l := kit.List(m["transports"]); l != nil {
@@ -670,9 +775,20 @@ func (d *c02Drv) runScript(c kit.Case, m kit.M) kit.Verdict {
 	delay := time.Duration(kit.Num(m["delay_ms"])) * time.Millisecond
 	cancel := class == "cancel"
 	env, cprefix := d.main, ""
-	if !c02HasTimeout(m) {
+	if c02OnNT(m) {
 		env, cprefix = d.nt, "nt-"
 	}
+	isRt, routeUs, cfgMs, effUs := c02Rt(m)
+	if isRt {
+		cprefix = "rt-"
+		if cfgMs != 0 && cfgMs != c02ApiMs {
+			return kit.Verdict{Case: c.Index, Infra: true, Msg: fmt.Sprintf("no engine with Config.Timeout = %d ms", cfgMs)}
+		}
+		if want := routeUs; want <= 0 && effUs != cfgMs*1000 {
+			return kit.Verdict{Case: c.Index, Infra: true, Msg: "scenario without route time-out whose effective time-out is not the configuration's"}
+		}
+	}
+	eff := time.Duration(effUs) * time.Microsecond
 	for _, tr := range d.transportsOf(m) {
 		if cancel && tr != "rec" {
 			d.rep.Count("skipped_cancel_on_"+tr, 1)
@@ -685,11 +801,22 @@ func (d *c02Drv) runScript(c kit.Case, m kit.M) kit.Verdict {
 		var ok bool
 		var why string
 		var sc *c02Scenario
+		var el map[string]any
+		hvMsg, hvMulti := "", false
 		run := func(a int) {
 			sc = d.newScenario(env)
 			sc.steps, sc.term, sc.npre = steps, kit.Str(m["term"]), npre
 			tclass := "long"
 			switch {
+			case isRt && kit.Bool(m["runs"]):
+				// the route registered with exactly this time-out value (none: the configuration's)
+				tclass = c02RtClass(routeUs)
+				if npre <= n && !cancel {
+					sc.release = make(chan struct{})
+					rel := sc.release
+					tm := time.AfterFunc(3*time.Second+2*eff, func() { close(rel) })
+					defer tm.Stop()
+				}
 			case env == d.nt:
 				tclass = "cfg" // no route time-out, Config.Timeout = 0: bindRoute composes the chain without the time-out guard
 			case !kit.Bool(m["runs"]):
@@ -712,13 +839,28 @@ func (d *c02Drv) runScript(c kit.Case, m kit.M) kit.Verdict {
 			}
 			o = d.do(tr, env, c02Path(tclass, mb), sc, cl, cancel, kit.Bool(m["runs"]))
 			d.reg.Delete(sc.id)
-			ok, why = c02Match(exp, o)
+			ok, why, el = c02MatchEl(exp, o)
 			if ok && (sc.ran.Load() > 0) != kit.Bool(m["runs"]) {
 				ok, why = false, "handler-ran"
+			}
+			if ok {
+				if vok, multi, msg := c02HdrValues(m, el, o); !vok {
+					ok, why = false, "header-values"
+					o.err = "" // (a complete response was received)
+					hvMsg = msg
+				} else if multi {
+					hvMulti = true
+				}
+			}
+			// the deadline the chain hands to the handler must leave it the whole route time-out
+			if dl, has := sc.dl.Load().(time.Time); has && isRt && effUs > 0 && o.err == "" && dl.Sub(o.t0) < eff {
+				ok, why = false, "deadline-early"
+				hvMsg = fmt.Sprintf("the handler's context expires %v after the request was sent, the route time-out is %v", dl.Sub(o.t0), eff)
 			}
 			v.Steps++
 		}
 		inconclusive := 0
+		overrunRetries := 0
 		serialized := false
 		infra := ""
 		for a := 0; a < 6; a++ {
@@ -759,6 +901,12 @@ func (d *c02Drv) runScript(c kit.Case, m kit.M) kit.Verdict {
 				}
 				break
 			}
+			if sc.release != nil && sc.overran.Load() && a < 2 {
+				// the handler was not told of any deadline for 3 s + 2 x the route time-out and was let go by the
+				// driver: only a stalled machine could do that to a conforming chain - it must reproduce
+				overrunRetries++
+				continue
+			}
 			if tr != "api" {
 				break
 			}
@@ -779,6 +927,15 @@ func (d *c02Drv) runScript(c kit.Case, m kit.M) kit.Verdict {
 		}
 		if infra != "" {
 			return kit.Verdict{Case: c.Index, Infra: true, Msg: infra}
+		}
+		if ok && overrunRetries > 0 {
+			d.rep.Count("rt_overrun_not_reproduced", 1)
+		}
+		if ok && hvMulti {
+			d.rep.Count(tr+"."+map[bool]string{false: "", true: "nt-"}[env == d.nt]+"multi-header", 1)
+		}
+		if ok && isRt {
+			d.rep.Count(fmt.Sprintf("rt.%dus.cfg%d.%s", routeUs, cfgMs, class), 1)
 		}
 		if ok {
 			d.rep.Count(tr+"."+cprefix+class, 1)
@@ -803,7 +960,14 @@ func (d *c02Drv) runScript(c kit.Case, m kit.M) kit.Verdict {
 				v.Key = "C02:rest:panic-escaped" // recorder path: nothing above the chain recovers
 			}
 			v.Msg = fmt.Sprintf("transport %s%s, %s scenario cl=%d script=%s term=%s npre=%d cause=%s delay=%v: client saw %s, specification allows %s",
-				tr, map[string]string{"": "", "nt-": " (engine with Config.Timeout=0: no time-out guard)"}[cprefix], class, cl, kit.Canon(m["steps"]), kit.Str(m["term"]), npre, kit.Str(m["cause"]), delay, o, c02Want(exp))
+				tr, map[string]string{"": "", "nt-": " (engine with Config.Timeout=0: no time-out guard)",
+					"rt-": fmt.Sprintf(" (route with WithTimeout(%dus), Config.Timeout=%dms: route time-out %v)", routeUs, cfgMs, eff)}[cprefix], class, cl, kit.Canon(m["steps"]), kit.Str(m["term"]), npre, kit.Str(m["cause"]), delay, o, c02Want(exp))
+			if hvMsg != "" {
+				v.Msg += "; " + hvMsg
+			}
+			if sc.overran.Load() {
+				v.Msg += fmt.Sprintf("; the handler saw no deadline and ended %v after the request was sent", 3*time.Second+2*eff)
+			}
 			return v
 		}
 	}
@@ -1010,7 +1174,7 @@ func TestVerifC02(t *testing.T) {
 
 	d.alone = handler.RecoverHandler(http.HandlerFunc(d.handle))
 	var mine []kit.Case
-	mbSet, ntSet := map[int64]bool{}, map[int64]bool{}
+	mbSet, ntSet, rtSet := map[int64]bool{}, map[int64]bool{}, map[int]bool{}
 	for _, c := range cases {
 		if c.Index%shards != shard {
 			continue
@@ -1019,13 +1183,20 @@ func TestVerifC02(t *testing.T) {
 		m := c.Steps[0]
 		if kit.Str(m["mode"]) != "conns" {
 			mb := int64(kit.Num(m["cfg"].(map[string]any)["maxBytes"]))
-			if c02HasTimeout(m) {
+			if !c02OnNT(m) {
 				mbSet[mb] = true
 			} else {
 				ntSet[mb] = true
 			}
+			if has, routeUs, _, _ := c02Rt(m); has && routeUs > 0 {
+				rtSet[routeUs] = true
+			}
 		}
 	}
+	for us := range rtSet {
+		d.rts = append(d.rts, us)
+	}
+	sort.Ints(d.rts)
 	if len(ntSet) > 0 {
 		var mbs []int64
 		for mb := range ntSet {
